@@ -53,7 +53,7 @@ fn program_output(out: &[u8]) -> Vec<u8> {
 }
 
 fn run_file(scratch: &Scratch, file: &std::path::Path, stack: bool, minimal: bool, plan: Option<String>) -> Proc {
-    let mut args = vec!["run".to_string(), file.display().to_string()];
+    let mut args: Vec<std::ffi::OsString> = vec!["run".into(), file.as_os_str().to_owned()];
     if minimal {
         args.push("--minimal".into());
     }
@@ -186,7 +186,7 @@ impl Check for C06 {
         let mut procs = 0u64;
 
         // ----- (a) compile: exactly 2(n+1) bytes, big-endian, origin first -----
-        let mut args = vec!["compile".to_string(), asm.display().to_string(), obj.display().to_string()];
+        let mut args: Vec<std::ffi::OsString> = vec!["compile".into(), asm.clone().into_os_string(), obj.clone().into_os_string()];
         if stack {
             args.push("-f".into());
             args.push("stack".into());
